@@ -6,9 +6,12 @@ io.FileIO on a temp file (validates the reference itself), and real handles of o
 backends (OSFS, SubFS, archive members) vs io.FileIO."""
 from __future__ import print_function
 
+import array
+import ctypes
 import io
 import itertools
 import json
+import mmap
 import os
 import random
 import shutil
@@ -64,10 +67,94 @@ def _rb(x):
     return r_bytes(x.encode("utf-8") if isinstance(x, str) else x)
 
 
+# ------------------------------------------------------------------------------------------
+# Buffer objects handed to readinto / readinto1 / write / writelines: every kind of object
+# that exports the buffer protocol, also those whose items are wider than one byte (for
+# which len() is not the number of bytes).
+
+class _Rec(ctypes.Structure):
+    _fields_ = [("magic", ctypes.c_uint32), ("size", ctypes.c_uint16)]      # 8 bytes with padding
+
+
+# kind -> (item size in bytes, writable)
+BUF_KINDS = [("bytes", 1, False), ("bytearray", 1, True), ("mv", 1, True), ("mvro", 1, False),
+             ("mvH", 2, True), ("mvI", 4, True), ("arrB", 1, True), ("arrH", array.array("H").itemsize, True),
+             ("arrI", array.array("I").itemsize, True), ("ctarrH", 2, True), ("ctstruct", ctypes.sizeof(_Rec), True),
+             ("mmap", 1, True)]
+BUF_ITEM = dict((k, i) for k, i, _w in BUF_KINDS)
+BUF_FILL = 0xAA
+
+
+def make_buf(kind, initial):
+    """(the object to hand to the file method, thunk giving its bytes afterwards, cleanup)."""
+    initial = bytes(initial)
+    nothing = lambda: None
+    if kind == "bytes":
+        return initial, (lambda: initial), nothing
+    if kind == "mvro":
+        return memoryview(initial), (lambda: initial), nothing
+    if kind == "bytearray":
+        b = bytearray(initial)
+        return b, (lambda: bytes(b)), nothing
+    if kind in ("mv", "mvH", "mvI"):
+        b = bytearray(initial)
+        m = memoryview(b)
+        if kind != "mv":
+            m = m.cast(kind[2])
+        return m, (lambda: bytes(b)), m.release
+    if kind in ("arrB", "arrH", "arrI"):
+        a = array.array(kind[3])
+        a.frombytes(initial)
+        return a, a.tobytes, nothing
+    if kind == "ctarrH":
+        a = (ctypes.c_uint16 * (len(initial) // 2)).from_buffer_copy(initial)
+        return a, (lambda: bytes(bytearray(a))), nothing
+    if kind == "ctstruct":
+        n = len(initial) // ctypes.sizeof(_Rec)
+        a = _Rec.from_buffer_copy(initial) if n == 1 else (_Rec * n).from_buffer_copy(initial)
+        return a, (lambda: bytes(bytearray(a))), nothing
+    if kind == "mmap":
+        m = mmap.mmap(-1, len(initial))
+        m[:] = initial
+        return m, (lambda: m[:]), m.close
+    raise ValueError(kind)
+
+
 def do_call(f, c):
     n = c[0]
     text = isinstance(f, io.TextIOBase)
     try:
+        if n in ("readinto", "readinto1"):
+            # c = (method, buffer kind, size in bytes); result: count / bytes of the buffer afterwards.
+            # An io object without readinto1 (raw files): readinto is used instead and the result marked '~'.
+            obj, dump, done = make_buf(c[1], bytes(bytearray([BUF_FILL])) * c[2])
+            try:
+                m, mark = getattr(f, n, None), ""
+                if m is None and n == "readinto1":
+                    m, mark = f.readinto, "~"
+                try:
+                    k = m(obj)
+                except AttributeError:
+                    if n == "readinto1":
+                        return "absent"
+                    raise
+                return mark + r_int(k) + "/" + r_bytes(dump())
+            finally:
+                done()
+        if n == "writebuf":
+            obj, dump, done = make_buf(c[1], c[2])
+            try:
+                return r_int(f.write(obj))
+            finally:
+                done()
+        if n == "writelinesbuf":
+            bufs = [make_buf(c[1], x) for x in c[2:]]
+            try:
+                f.writelines([b[0] for b in bufs])
+                return "U"
+            finally:
+                for b in bufs:
+                    b[2]()
         if n == "read":
             r = f.read() if c[1] is None else f.read(c[1])
             return "b" + _rb(r)
@@ -426,6 +513,96 @@ def boundary_cases(kind, layer, archive, tier, seed, d, memo):
     return out, stats
 
 
+# ------------------------------------------------------------------------------------------
+# Buffer-type block: every binary file-object kind x every buffer-taking method (readinto,
+# readinto1, write, writelines) x every kind of buffer object, at several positions (start,
+# middle, after a read, less data left than room in the buffer, EOF), followed by tell, read()
+# and tell.  Oracle: the io object of the same layer on a temp file (count returned, bytes of
+# the buffer afterwards, position, what the next read returns, final file bytes).
+
+BUF_CONTENT = bytes(bytearray(range(1, 41)))       # 40 distinct bytes, a newline among them
+BUF_METHODS = ["readinto", "readinto1", "writebuf", "writelinesbuf"]
+
+
+def buf_payload(nbytes, salt):
+    return bytes(bytearray((0x41 + (i * 7 + salt) % 26) for i in range(nbytes)))
+
+
+def buffer_cases(kind, layer, archive, tier, seed):
+    rnd = random.Random("%s-%d-buffers" % (kind, seed))
+    thorough = tier == "thorough"
+    contents = [BUF_CONTENT] + ([b"abc\ndef", b""] if thorough else [])
+    modes = ["r"] if archive else (MODES if thorough else ["r", "r+", "a+", "w"])
+    out = []
+    stats = dict(buffer_sequences=0, wide_item_buffers=0)
+    for content in contents:
+        for mode in modes:
+            size0 = 0 if "w" in mode else len(content)
+            readable = "r" in mode or "+" in mode
+            prefixes = [[], [("seek", min(3, size0), 0)], [("seek", max(0, size0 - 3), 0)], [("seek", size0, 0)]]
+            if readable:
+                prefixes.append([("read", 2)])
+            for method, (bk, item, _w) in itertools.product(BUF_METHODS, BUF_KINDS):
+                sizes = [n for n in (0, 5, 8, 24) if n % item == 0 and not (n == 0 and bk == "mmap")]
+                if method.startswith("write") and "a" in mode:
+                    sizes = [n for n in sizes if n]      # zero-length append: outside the compared domain (see in_domain)
+                if thorough:
+                    combos = list(itertools.product(prefixes, sizes))
+                else:
+                    # always the largest buffer, at two positions; plus one more (position, size) drawn from the seed
+                    combos = [(p, sizes[-1]) for p in rnd.sample(prefixes, 2)] + [(rnd.choice(prefixes), rnd.choice(sizes))]
+                for prefix, nbytes in combos:
+                    if method in ("readinto", "readinto1"):
+                        call = (method, bk, nbytes)
+                    elif method == "writebuf":
+                        call = (method, bk, buf_payload(nbytes, 1))
+                    else:
+                        call = (method, bk, buf_payload(nbytes, 2), buf_payload(nbytes, 3))
+                    steps = [("open", mode)] + [("call", 0, c) for c in prefix + [call, ("tell",), ("read", None), ("tell",)]]
+                    out.append((content, steps))
+                    stats["buffer_sequences"] += 1
+                    stats["wide_item_buffers"] += item > 1
+    return out, stats
+
+
+def _count_and_bytes(res):
+    k, _, b = res.partition("/")
+    return int(k[1:]), ([int(x) for x in b[1:].split(",")] if len(b) > 1 else [])
+
+
+def buf_same(got, exp):
+    """Equality of the observations, except for readinto1 where the io reference object has no such
+    method (raw files; marked '~', it ran readinto): there the file object may lack it as well,
+    or return what readinto returns, or - being allowed a single raw read - a non-empty prefix of it
+    (what follows is then not comparable)."""
+    if got == exp:
+        return True
+    if got.startswith("EXC:"):
+        return False
+    g, e = got.split("#"), exp.split("#")
+    gs, es = g[0][1:-1].split(";"), e[0][1:-1].split(";")
+    if len(gs) != len(es):
+        return False
+    for x, y in zip(gs, es):
+        if x == y:
+            continue
+        if x == "absent" and y == "rejected":
+            continue            # neither side did anything
+        if y.startswith("~") and not x.startswith("~"):
+            if x == "absent":
+                return True
+            if x == y[1:]:
+                continue
+            try:
+                kx, bx = _count_and_bytes(x)
+                ky, by = _count_and_bytes(y[1:])
+            except ValueError:
+                return False
+            return 0 < kx < ky and len(bx) == len(by) and bx[:kx] == by[:kx] and all(v == BUF_FILL for v in bx[kx:])
+        return False
+    return g[1:] == e[1:]
+
+
 def boundary_kind(args):
     """The boundary block of one kind (runs in a forked worker: own scratch directory)."""
     kind, layer, archive, tier, seed, d = args
@@ -443,6 +620,20 @@ def boundary_kind(args):
             got = "EXC:" + type(e).__name__
         if got != expect:
             bad.append(("%s handle vs io (seek boundary block)" % kind, (content, steps), got, expect))
+    if layer != "text":
+        bcases, bstats = buffer_cases(kind, layer, archive, tier, seed)
+        stats.update(bstats)
+        for content, steps in bcases:
+            expect = b_ref_case(layer, content, steps, d)
+            try:
+                got = b_real_case(kind, content, steps, d, cache)
+            except Exception as e:
+                got = "EXC:" + type(e).__name__
+            if not buf_same(got, expect):
+                call = steps[-4][2]
+                bad.append(("%s handle vs io (buffer-type block): %s with a %s buffer" % (kind, call[0], call[1]),
+                            (content, steps), got, expect))
+        cases = cases + bcases
     for o in cache.values():
         try:
             o.close()
@@ -652,7 +843,7 @@ def run(report, forced=None):
         seen.add(sig)
         payload = dict(kind="file-object-differs", comparison=what, content=c.decode("latin-1"),
                        steps=steps_json(s), observed=a, expected=b, theorem="Props/C16.v")
-        if what.endswith("(seek boundary block)"):
+        if what.endswith("(seek boundary block)") or "(buffer-type block)" in what:
             payload["boundary_kind"] = what.split()[0]
         report.violation(payload)
     if vm_mism and not bad:
@@ -676,6 +867,18 @@ def run(report, forced=None):
                         "r,w,a,r+,w+,a+ (archive members: r); oracle = CPython io object of the same layer "
                         "(FileIO / Buffered*(3) / TextIOWrapper) on a temp file",
                    sequences=b_total, kinds=b_cov),
+               buffer_type_block=dict(
+                   rule="per binary kind (%d kinds; text handles have no buffer-taking methods beyond str): {readinto, "
+                        "readinto1, write, writelines} x buffer object in {%s} (items of 1, 2, 4, 8 bytes; read-only "
+                        "ones included) x sizes 0/5/8/24 bytes x position {start, offset 3, 3 before EOF, EOF, after "
+                        "read(2)} x modes (quick: r, r+, a+, w; thorough: all six; archive members: r), each followed "
+                        "by tell, read(), tell; quick: the largest buffer at 2 positions + 1 drawn (position, size) per "
+                        "(mode, method, buffer kind); oracle = io object of the same layer (count, buffer bytes "
+                        "afterwards, position, next read, final file bytes); readinto1 on raw layers (io.FileIO has "
+                        "none): may be absent, equal readinto, or return a non-empty prefix of it"
+                        % (len([k for k in B_KINDS if k[1] != "text"]), ", ".join(k for k, _i, _w in BUF_KINDS)),
+                   sequences=sum(v.get("buffer_sequences", 0) for v in b_cov.values()),
+                   wide_item_buffer_sequences=sum(v.get("wide_item_buffers", 0) for v in b_cov.values())),
                temp_handle_iterations=n_iter,
                traces_validated_against_impl=total - len(bad))
     return report.finish(proof, cov, assumptions=[
@@ -732,7 +935,8 @@ def replay(report, path):
         if x[0] in ("open", "fs"):
             steps.append((x[0], x[1]))
         else:
-            c = tuple(y.encode("latin-1") if isinstance(y, str) and x[2] in ("write", "writelines") and k >= 1 else y
+            c = tuple(y.encode("latin-1") if isinstance(y, str) and (x[2] in ("write", "writelines") and k >= 1 or
+                                                                   x[2] in ("writebuf", "writelinesbuf") and k >= 2) else y
                       for k, y in enumerate(x[2:]))
             steps.append(("call", x[1], c))
     content = d["content"].encode("latin-1")
@@ -747,7 +951,7 @@ def replay(report, path):
                 o.close()
             print("%-9s:" % kind, a)
             print("io (%s):" % layer, b)
-            return 0 if a == b else 1
+            return 0 if buf_same(a, b) else 1
         a, b = mem_case(content, steps), fileio_case(content, steps, t)
     finally:
         shutil.rmtree(t, ignore_errors=True)
